@@ -390,6 +390,8 @@ def gen_case(rng, stream, forced=None, focus=None):
         ra, rv = ['cls', 'NoneType'], ['none']
     c['ret'] = ra
     c['body'] = ['ret', rv] if rng.random() < 0.85 else ['raise', rng.choice(BODY_EXC)]
+    if c['body'][0] == 'raise' and c['body'][1] == [0, 2] and rng.random() < 0.8:
+        c['exc_msg'] = rng.choice([1, 2, 3, 4])      # a TypeError of the body that reads like one of CPython's own binding errors
     # the conforming keyword call
     kwargs, args = [], []
     named = [p for p in params if p['kind'] in ('pos', 'kwonly')]
